@@ -238,6 +238,33 @@ func suiteTotality(R *runner, r *rng) {
 		}
 	}
 
+	// TTML style inheritance: every parent assignment over three styles (none / a / b / c each: self references, cycles,
+	// chains leading into a cycle, forests) in every declaration order, referenced from a cue
+	{
+		ids := []string{"a", "b", "c"}
+		perms := [][]int{{0, 1, 2}, {0, 2, 1}, {1, 0, 2}, {1, 2, 0}, {2, 0, 1}, {2, 1, 0}}
+		for g := 0; g < 64; g++ {
+			par := []int{g % 4, g / 4 % 4, g / 16 % 4} // 3 = no parent
+			for _, pm := range perms {
+				var b strings.Builder
+				b.WriteString(`<tt xmlns="http://www.w3.org/ns/ttml"><head><styling>`)
+				for _, i := range pm {
+					if par[i] == 3 {
+						fmt.Fprintf(&b, `<style xml:id="%s"/>`, ids[i])
+					} else {
+						fmt.Fprintf(&b, `<style xml:id="%s" style="%s"/>`, ids[i], ids[par[i]])
+					}
+				}
+				fmt.Fprintf(&b, `</styling><layout><region xml:id="r" style="%s"/></layout></head><body><div><p begin="1s" end="2s" style="%s" region="r">x</p></div></body></tt>`, ids[pm[0]], ids[pm[2]])
+				for _, rd := range readers {
+					if rd.name == "ttml" {
+						run(rd, []byte(b.String()), "total.read.ttml_style_graphs", "style graph")
+					}
+				}
+			}
+		}
+	}
+
 	// transport streams with malformed PES payloads / data units / teletext packets inside a valid packet layer
 	for c := 0; c < N/4; c++ {
 		ts, kinds := hostileTS(r)
